@@ -5,11 +5,17 @@ import CwMt.Driver.Util
 namespace CwMt.Driver.Stk
 open CwMt CwMt.Driver CwMt.Staking
 
+/-- `frac`: the sub-second part of the App's block time in nanoseconds (the default block starts at
+1571797419.879305533). The staking model counts whole seconds of block time — `calculate_rewards` takes
+`floor(now) - floor(since)` — so an `advance` with nanoseconds moves the model's clock by the number of whole-second
+boundaries crossed; the generator keeps clear of the one case in which the unbonding queue (which compares
+nanoseconds) and whole seconds disagree. -/
 structure StkState where
   c : Chain
   dead : Bool
+  frac : Nat := 879305533
 
-def StkState.init : StkState := ⟨⟨SState.init, [], 0, 0⟩, false⟩
+def StkState.init : StkState := ⟨⟨SState.init, [], 0, 0⟩, false, 879305533⟩
 
 def stkCfg : Cfg := { pool := "pool", valid := fun a => a ≠ "bad" ∧ a ≠ "pool" }
 
@@ -56,7 +62,7 @@ def runOp (st : StkState) (op : Op) : StkState × String :=
   match step stkCfg st.c op with
   | (c, .ok) => ({ st with c := c }, "ok")
   | (c, .err) => ({ st with c := c }, "err")
-  | (c, .panic) => ({ c := c, dead := true }, "panic")
+  | (c, .panic) => ({ st with c := c, dead := true }, "panic")
 
 def coinOf (c : Chain) (amount : Nat) (denom : Option String) : Coin :=
   ⟨denom.getD c.st.info.bondedDenom, amount⟩
@@ -106,6 +112,17 @@ def stepStaking' (st : StkState) (toks : List String) : StkState × String :=
     match n.toNat? with
     | some n => runOp st (.advance n)
     | none => (st, "bad-op")
+  | ["advance", n, _mode] =>
+    match n.toNat? with
+    | some n => runOp st (.advance n)
+    | none => (st, "bad-op")
+  | ["advance", n, _mode, ns] =>
+    match n.toNat?, ns.toNat? with
+    | some n, some ns =>
+      if ns ≥ 1000000000 then (st, "bad-op") else
+      let f := st.frac + ns
+      runOp { st with frac := f % 1000000000 } (.advance (n + f / 1000000000))
+    | _, _ => (st, "bad-op")
   | ["q-deleg", a, v] => (st, fmtDeleg (queryDelegation stkCfg c a v))
   | ["q-all", a] =>
     match queryAllDelegations stkCfg c a with
